@@ -308,8 +308,12 @@ theorem frozen_step (s s' : State) (op : Op)
     | enable => exact ⟨hi, rfl⟩
 
 /-- From a frozen state, over EVERY continuation (every message kind, every sender incl. creator and minter,
-every migration in scope from every stored version): the flag stays set and creator, description, image, external
+every migration IN SCOPE from every stored version): the flag stays set and creator, description, image, external
 link, explicit-content flag and royalty info keep their values.
+
+SCOPE: "migration in scope" = base / older updatable → updatable code, metadata-onchain → its own code, nt → its own code.
+Migrations to the metadata-onchain / nt code from ANOTHER collection kind — which the real code does not refuse (no name
+check; observation, DESIGN 13.3) — are excluded by a model guard (`ensure (s.kind = …)`), not covered by this theorem.
 
 (`royalty_updated_at` is NOT a creator-editable field and is NOT constant: migrating a collection whose stored
 version is below 3.1.0 to the sg721-updatable code rewinds it — `C09_royalty_timestamp_rewound_by_migration`. An earlier
@@ -537,7 +541,9 @@ theorem metaFrozen_step (s s' : State) (op : Op) (hk : s.kind = .updatable) (hf 
     rw [hf] at hfm; cases hfm
 
 /-
-FULL literal clause (NOT provable — the unchanged code contradicts it, see `C09_meta_freeze_final_counterexample`):
+FULL literal reading (NOT provable on the unchanged code, see `C09_meta_freeze_final_counterexample`; recorded as an
+observation (DESIGN 13.3), not a finding — the property itself allows creating an id that does not exist, and the launchpad
+minters never re-mint):
 
   theorem C09_meta_freeze_final (s : State) (hk : s.kind = .updatable) (hf : s.frozenMeta = true)
       (ops : List Op) (id : Nat) (h1 : id ∈ s.ids) (h2 : id ∈ (run s ops).ids) :
@@ -677,8 +683,14 @@ theorem nt_step (s s' : State) (op : Op) (hk : s.kind = .nt) (h : step s op = .o
     | ntSelf => exact hk
 
 /-- sg721-nt: over EVERY history, a token that continues to exist keeps its owner (so between its mint and its
-burn the owner is the address it was minted to); the collection cannot leave the nt code (no migration in scope
-accepts an sg721-nt name). -/
+burn the owner is the address it was minted to); no IN-SCOPE migration changes the kind.
+
+SCOPE of the conjunct `(run s ops).kind = .nt`: it holds because the MODEL refuses the foreign migrations —
+`migrateOnchainSelf` starts with `ensure (s.kind = .onchain)`, `migrateToUpdatable` does not accept an nt name. The real
+sg721-metadata-onchain `migrate` never looks at the stored contract name (and returns `Ok` at an equal version), so the
+wasm admin can point an nt collection at the transferable metadata-onchain code; that migration is excluded by the model
+guard, NOT proved impossible (and not executed by the harness). Recorded as an observation (DESIGN 13.3: "sg721-nt /
+-metadata-onchain `migrate` have no name check"), not a finding. -/
 theorem C09_nt_owner_constant (s : State) (hk : s.kind = .nt) (ops : List Op) (id : Nat)
     (alive : aliveThrough s id ops) :
     ownerOf (run s ops) id = ownerOf s id ∧ (run s ops).kind = .nt := by
@@ -1064,8 +1076,8 @@ def exRemint : List Op :=
   [exCall 1000 (.mint 1 20 (some 5) 0), exCall 10 .freezeTokenMetadata, exCall 20 (.burn 1),
    exCall 1000 (.mint 1 20 (some 7) 0)]
 
-/-- COUNTER-EXAMPLE to the literal clause "once token metadata is frozen on an updatable collection no token URI
-changes again": after the freeze (flag true throughout), id 1 exists before and after the continuation
+/-- COUNTER-EXAMPLE to the literal reading "once token metadata is frozen on an updatable collection no token URI
+changes again" (recorded as an observation, DESIGN 13.3, not a finding): after the freeze (flag true throughout), id 1 exists before and after the continuation
 `[burn 1 by its owner, mint 1 by the minter]`, every step of which succeeds, and `NftInfo(1).token_uri` went from 5 to
 7. Replayed on the real sg721-updatable: `corpus/C09/remint-after-freeze.json`. -/
 theorem C09_meta_freeze_final_counterexample :
